@@ -43,7 +43,7 @@ pub fn beh_of(x: u128) -> Beh {
         1 => Beh::Zero,
         2 => Beh::Eintr,
         3..=8 => Beh::Err(HARD_ERRNOS[(x - 3) as usize]),
-        k if k >= 16 && k < 16 + (1 << 20) => Beh::Short((k - 16) as usize),
+        k if k >= 16 && k < 16 + (1 << 26) => Beh::Short((k - 16) as usize),
         _ => panic!("bad descriptor behaviour"),
     }
 }
